@@ -363,7 +363,7 @@ func (w *c16Workers) close() {
 
 func c16(c *report.Check) {
 	defer scratchCleanup()
-	depth, bfsDepth := 3, 6
+	depth, bfsDepth := 3, 5
 	if c.Thorough() {
 		depth, bfsDepth = 4, 8
 	}
